@@ -155,7 +155,7 @@ pub fn chain_source(kind: usize, n: usize, d: &Delims) -> String {
 pub fn generate(seed: u64, tier: &str, _property: &str) -> DiskScenario {
     let rng = Rng::new(seed);
     let mut cfg = GenCfg::swarm(&rng);
-    cfg.delims = Delims::set(rng.below(6));
+    cfg.delims = Delims::set(rng.below(Delims::N_SETS));
     cfg.prefixes.clear();
     cfg.n_templates = rng.range(1, 4);
     cfg.unicode_text = rng.chance(3, 4);
